@@ -1,10 +1,11 @@
 """C06 -- see DESIGN.md section 5.  Deductive targets are added below the bounded import."""
 PROP = "C06"
 LEVEL = "other"
-EXPLANATION = ("Deductive: every insertion into an ArgsFormatBuilder is either rejected with the builder unchanged or extends the name tables by exactly the element: add_option and add_command_option (long name, short name and every long / short alias, four loops with quantified invariants) raise CannotAddOptionException exactly when one of the names is taken by an option or command option of the builder or its base formats and otherwise make every name denote the new element and change nothing else (same_except over the key set); add_argument enforces the ordering rules (no argument after a multi-valued one, no required one after an optional one, no duplicate name) through the two flags it maintains; has_option / has_command_option are the lookups those checks use; get_options / get_arguments hand out a new dict every time (never the builder's own table) that lists every own element, and leave the tables unchanged.  Bounded: operation sequences on real builders compared step by step with an abstract model (view + invariant), mirrored queries of ArgsFormat, the element-list constructor.")
-LEVEL_NOTE = ("assumes: the base format is seen through fixed (uninterpreted) has_* views; own argument names as a ghost set; the two tables of a kind are distinct objects; quantified obligations are discharged by z3 or, where z3 answers unknown, by cvc5 on the same SMT-LIB text; the finished ArgsFormat (mirror of the builder) and the get_* queries are bounded only")
+EXPLANATION = ("Deductive: every insertion into an ArgsFormatBuilder is either rejected with the builder unchanged or extends the name tables by exactly the element: add_option and add_command_option (long name, short name and every long / short alias, four loops with quantified invariants) raise CannotAddOptionException exactly when one of the names is taken by an option or command option of the builder or its base formats and otherwise make every name denote the new element and change nothing else (same_except over the key set); add_argument enforces the ordering rules (no argument after a multi-valued one, no required one after an optional one, no duplicate name) through the two flags it maintains; has_option / has_command_option are the lookups those checks use; get_options / get_arguments hand out a new dict every time (never the builder's own table) that lists every own element, and leave the tables unchanged; the finished ArgsFormat mirrors the lookups of the builder: has_option / has_command_option / get_option / get_command_option are proved, one level of the base chain at a time, to consult the long-name table, then the short-name table, then (only if asked to include it, and only if there is one) the base format, to return the element of exactly that table, and to raise NoSuchOptionException only for a name none of them knows (variant contracts over the same uninterpreted base views as the builder).  Bounded: operation sequences on real builders compared step by step with an abstract model (view + invariant), mirrored queries of ArgsFormat, the element-list constructor.")
+LEVEL_NOTE = ("assumes: the base format is seen through fixed (uninterpreted) has_* views; own argument names as a ghost set; the two tables of a kind are distinct objects; quantified obligations are discharged by z3 or, where z3 answers unknown, by cvc5 on the same SMT-LIB text; well-formed name tables of a finished format (long names two characters or more, short names one: C07) are a precondition of the mirrored get_* lookups; the views of a base format are fixed functions (finite, acyclic base chain: not proved); the constructor of ArgsFormat, the argument-side and listing queries of the finished format are bounded only")
 from . import builder_contracts as bc
-TARGETS = [bc.B + m for m in ("has_option", "has_command_option", "add_option", "add_argument", "add_command_option", "get_options", "get_arguments")]
+from . import format_mirror_contracts as fm
+TARGETS = [bc.B + m for m in ("has_option", "has_command_option", "add_option", "add_argument", "add_command_option", "get_options", "get_arguments")] + fm.MIRROR
 LEMMAS = []
 try:
     from .C06_bounded import bounded, BOUNDED_RULE  # noqa: F401
